@@ -3,7 +3,11 @@ package checks
 import (
 	"encoding/base64"
 	"fmt"
+	"google.golang.org/protobuf/reflect/protoreflect"
+	"google.golang.org/protobuf/reflect/protoregistry"
 	"math"
+	"sort"
+	"strings"
 	"unicode"
 	"unicode/utf16"
 	"unicode/utf8"
@@ -396,6 +400,27 @@ func maxI(a, b int64) int64 {
 	return b
 }
 
+var c14Wrappers []protoreflect.MessageType
+
+// c14CodeWrappers: the registered R4 code elements whose value is an enum (codes bound to a value set), in name order
+func c14CodeWrappers() []protoreflect.MessageType {
+	if c14Wrappers == nil {
+		protoregistry.GlobalTypes.RangeMessages(func(mt protoreflect.MessageType) bool {
+			md := mt.Descriptor()
+			if strings.HasPrefix(string(md.FullName()), "google.fhir.r4.core.") && lib.IsPrimitiveMsg(md) {
+				if vf := md.Fields().ByName("value"); vf != nil && vf.Kind() == protoreflect.EnumKind {
+					c14Wrappers = append(c14Wrappers, mt)
+				}
+			}
+			return true
+		})
+		sort.Slice(c14Wrappers, func(i, j int) bool {
+			return c14Wrappers[i].Descriptor().FullName() < c14Wrappers[j].Descriptor().FullName()
+		})
+	}
+	return c14Wrappers
+}
+
 func init() {
 	core.Register(&core.Check{
 		ID:          "C14",
@@ -444,6 +469,56 @@ func init() {
 						c14One(r, ex, &dtpb.Base64Binary{Value: raw}, "fhir.base64Binary", b64, []string{"", "/", "=", "A", "w=", "==", "5B", b64}, false)
 					}
 					r.NontrivialByConstruction(r.Evals - before)
+				}},
+				{Name: "bound-code-receivers", N: len(c14CodeWrappers()), Note: "every code element bound to a value set (339 wrapper types) x every code of its value set as receiver: the string is the FHIR code; length, toChars, upper, lower, indexOf / substring / startsWith / endsWith at the ends, equality with the code", Run: func(i int, r *core.Rec) {
+					mt := c14CodeWrappers()[i]
+					vf := mt.Descriptor().Fields().ByName("value")
+					vals := vf.Enum().Values()
+					for k := 0; k < vals.Len(); k++ {
+						ev := vals.Get(k)
+						if ev.Number() == 0 {
+							continue
+						}
+						m := mt.New()
+						m.Set(vf, protoreflect.ValueOfEnum(ev.Number()))
+						code := c18CodeOf(ev)
+						rs := []rune(code)
+						n := len(rs)
+						if n == 0 || strings.Contains(code, "'") {
+							continue
+						}
+						env := map[string]any{"s": m.Interface(), "code": system.String(code)}
+						for _, c := range []struct {
+							fn, src string
+							want    any
+						}{
+							{"length", "%s.length()", int64(n)}, {"toChars", "%s.toChars().count()", int64(n)}, {"upper", "%s.upper()", strings.ToUpper(code)}, {"lower", "%s.lower()", strings.ToLower(code)},
+							{"indexOf", "%s.indexOf(%code.substring(" + fmt.Sprint(n-1) + ")) <= " + fmt.Sprint(n-1), true}, {"substring", fmt.Sprintf("%%s.substring(%d)", n-1), string(rs[n-1:])}, {"substring-past-end", fmt.Sprintf("%%s.substring(%d)", n), ""},
+							{"startsWith", "%s.startsWith(%code.substring(0, 2))", true}, {"endsWith", "%s.endsWith(%code.substring(" + fmt.Sprint(max(n-2, 0)) + "))", true}, {"contains", "%s.contains(%code)", true},
+							{"equal", "%s = %code", true}, {"concat-law", "%s.substring(0, " + fmt.Sprint(n/2) + ") & %s.substring(" + fmt.Sprint(n/2) + ") = %code", true}, {"replace", "%s.replace(%code, 'x')", "x"},
+						} {
+							o := c14Out(lib.Run(c.src, nil, env))
+							r.Eval()
+							bad := false
+							switch w := c.want.(type) {
+							case int64:
+								bad = !(o.kind == "int" && o.i == w)
+							case bool:
+								bad = !(len(o.res.Coll) == 1 && o.res.Coll[0] == system.Boolean(w))
+							case string:
+								if w == "" {
+									bad = !(o.kind == "empty" || o.kind == "string" && o.s == "")
+								} else {
+									bad = !(o.kind == "string" && o.s == w)
+								}
+							}
+							if bad {
+								r.Fail(fmt.Sprintf("%s|fhir.code.bound|-|got=%s|value!=ref", c.fn, o.disc()), core.W{"type": string(mt.Descriptor().FullName()), "code": code, "src": c.src, "got": o.res.String(), "want": c.want})
+							}
+						}
+						r.State("recv|fhir.code.bound")
+					}
+					r.NontrivialByConstruction(int64(vals.Len()) * 13)
 				}},
 				{Name: "literal-receivers", N: len(short), Note: "strings of length 0..2 written as string literals", Run: func(i int, r *core.Rec) {
 					s := short[i]
